@@ -338,13 +338,65 @@ pub fn run(seed: u64, shard: u64, tables: usize, perms: usize, cross_process: us
     let u = universe();
     for t in 0..tables {
         let mut rng = Rng::derive(seed, "c06-table", shard, t as u64);
-        let (eps, tagcfg) = gen_doc_table(&mut rng, &u);
+        let (mut eps, tagcfg) = gen_doc_table(&mut rng, &u);
         if eps.len() < 2 {
             continue;
         }
+        // near-conflict sets (not on the tables a child process regenerates): one more
+        // generation of an endpoint already in the table, with a range drawn without
+        // regard to the ranges already there.  Whether such a set is accepted is C02's
+        // business; IF it is accepted (in whatever order), the documents must still list
+        // every published endpoint in range — which they cannot when two share a version.
+        let mut near_conflict = false;
+        if !(shard == 0 && t < cross_process) {
+            let mut hr = Rng::derive(seed, "c06-near-conflict", shard, t as u64);
+            if hr.chance(1, 3) {
+                let bi = hr.usize(eps.len());
+                let mut x = DocEp { ep: eps[bi].ep.clone(), flavor: eps[bi].flavor, tags: eps[bi].tags.clone(), deprecated: eps[bi].deprecated };
+                x.ep.opid = format!("{}_again", x.ep.opid);
+                x.ep.range = loop {
+                    let r = gen_range(&mut hr, &u);
+                    if r.nonempty() && !matches!(r, MRange::All) {
+                        break r;
+                    }
+                };
+                if !x.ep.has_wild() {
+                    x.ep.visible = true;
+                    eps[bi].ep.visible = true;
+                }
+                eps.push(x);
+                near_conflict = true;
+            }
+        }
         let table: Vec<MEndpoint> = eps.iter().map(|d| d.ep.clone()).collect();
-        let order0: Vec<usize> = (0..eps.len()).collect();
-        let api0 = match build(&eps, &order0, tagcfg) {
+        let mut order0: Vec<usize> = (0..eps.len()).collect();
+        let mut built = build(&eps, &order0, tagcfg);
+        if near_conflict && built.is_err() {
+            // any accepting order will do
+            let mut hr = Rng::derive(seed, "c06-near-conflict-order", shard, t as u64);
+            for k in 0..6 {
+                let mut o: Vec<usize> = (0..eps.len()).collect();
+                if k == 0 {
+                    o.rotate_right(1);
+                } else {
+                    hr.shuffle(&mut o);
+                }
+                if let Ok(a) = build(&eps, &o, tagcfg) {
+                    order0 = o;
+                    built = Ok(a);
+                    break;
+                }
+            }
+            if built.is_err() {
+                rep.eval(format!("near-conflict-set|refused-in-every-order|n{}", eps.len().min(9)));
+                rep.count("near_conflict_sets_refused", 1);
+                continue;
+            }
+        }
+        if near_conflict {
+            rep.count("near_conflict_sets_accepted", 1);
+        }
+        let api0 = match built {
             Ok(a) => a,
             Err(e) => {
                 rep.inconclusive(&format!("model-accepted table refused (C02 decides): {}", &e[..e.len().min(40)]));
